@@ -96,10 +96,13 @@ ACCEPT_DIAG_COND = {"I == J and I in D", "J == I and I in D", "I == J and J in D
                     "I in D and i == j", "J in D and i == j", "I in D and j == i", "J in D and j == i"}
 
 
-def check_function(ctx: core.Ctx, rel, qual, fn: ast.FunctionDef, dict_param: str, rule="LAY-KEYMAT"):
+def check_function(ctx: core.Ctx, rel, qual, fn: ast.FunctionDef, dict_param: str, rule="LAY-KEYMAT", mod=None, cls=None):
     """returns the canonical table (for sibling comparison) or None"""
     from . import normast
-    fn = normast.Normaliser(None).function(fn)        # swapped arms / guard clauses / temporaries: compare the decision table, not its arrangement
+    # swapped arms / guard clauses / temporaries / a lookup helper (module function or method with guard returns): compare the decision table,
+    # not its arrangement
+    res = normast.class_resolver(mod, cls) if mod is not None else None
+    fn = normast.Normaliser(res).function(fn)
     nest = find_nest(fn)
     where = f"{rel}:{qual}"
     if nest is None:
